@@ -21,8 +21,8 @@ import core
 READY = True
 MANIFEST = dict(
     technique='Lean 4 theorems over a bit-exact integer model of the binary64 operations (correctly rounded n/1000, x*1000, round-half-even) with a proved half-ulp error bound, and over transcribed string level models of the decimal / integer / boolean / enum / duration converters; correspondence with the real converters (floats via float.hex()), dense millisecond window exhaustively',
-    text='Properties/C18.lean proves: to_xml(to_py(n)) = n for EVERY millisecond count n < 2^53/1000 (no sampling: error analysis of the two roundings proved about the executable rnRat/rnMul), |to_py(to_xml(x)) - x| < 1 ms for every float 0 <= x <= 2^41 s, value preservation and absence of exponent notation for every Decimal with <= 18 digits and exponent in [-18, 18] (both directions, negative and zero included), the duration round trip for every integer microsecond count up to timedelta.max (including the float steps of the parser), parse_date_time(str(info)) == info for every well-formed date/time information, and rejection of every string outside the lexical space of xsd:integer / xsd:decimal (after white space collapse), of the SDPi duration pattern, and of every non-literal for enums. For xsd:boolean the statement is refuted (to_py never rejects) - known finding.',
-    note='Model describes the code after fix commits 02af939, 4314acb, f03f008, 95e2f64. The float steps of parse_duration (float(str), modf, frac*1e6, round-half-even) are proved exact on the binary64 model for what duration_string writes. Trusted: CPython int/int true division, float*float, float(str), round(float) being the IEEE-754 correctly rounded operations (compared bit-exactly on every run, dense window 0..2e7 ms exhaustively in the thorough tier); decimal.Decimal constructor / format(d, "f") (transcribed, under correspondence); C implementation of datetime.timedelta(seconds=float) (transcribed from _datetimemodule.c accum/delta_new, under correspondence). The seconds of XsdDateInformation are decimal text in the model (float(text) is compared through the Fp64 model, format(Decimal(repr(x)), "f") is a trusted boundary step). Not modelled: DecimalConverter with USE_DECIMAL_TYPE=False and float py values (_float_to_xml), subnormal / overflowing floats; no rejection theorem for date/time strings (correspondence + oracle only).',
+    text='Properties/C18.lean proves: to_xml(to_py(n)) = n for EVERY millisecond count n < 2^53/1000 (no sampling: error analysis of the two roundings proved about the executable rnRat/rnMul), |to_py(to_xml(x)) - x| < 1 ms for every float 0 <= x <= 2^41 s, value preservation and absence of exponent notation for every Decimal with <= 18 digits and exponent in [-18, 18] (both directions, negative and zero included), the duration round trip for every integer microsecond count up to timedelta.max (including the float steps of the parser), parse_date_time(str(info)) == info for every well-formed date/time information, and rejection of every string outside the lexical space of xsd:integer / xsd:decimal (after white space collapse), of the SDPi duration pattern, of the date/time pattern, and of every non-literal for enums. For xsd:boolean the statement is refuted (to_py never rejects) - known finding.',
+    note='Model describes the code after fix commits 02af939, 4314acb, f03f008, 95e2f64. The float steps of parse_duration (float(str), modf, frac*1e6, round-half-even) are proved exact on the binary64 model for what duration_string writes. Trusted: CPython int/int true division, float*float, float(str), round(float) being the IEEE-754 correctly rounded operations (compared bit-exactly on every run, dense window 0..2e7 ms exhaustively in the thorough tier); decimal.Decimal constructor / format(d, "f") (transcribed, under correspondence); C implementation of datetime.timedelta(seconds=float) (transcribed from _datetimemodule.c accum/delta_new, under correspondence). The seconds of XsdDateInformation are decimal text in the model (float(text) is compared through the Fp64 model, format(Decimal(repr(x)), "f") is a trusted boundary step). Not modelled: DecimalConverter with USE_DECIMAL_TYPE=False and float py values (_float_to_xml), subnormal / overflowing floats;.',
     ref='5 C18')
 DRIVERS = ['drv_c18']
 RULE = ('one case = one converter call (class, direction, input); distinct by input; non-trivial = the input is not a fixed '
